@@ -2,7 +2,7 @@
 # usage: run_all.sh [quick|thorough] [ids...]   runs the registered checks one after the other, prints one summary line each
 T=${1:-quick}; shift
 IDS="$*"; [ -z "$IDS" ] && IDS=$(python3 -c "import sys;sys.path.insert(0,'/verif/bin');from checks import CHECKS;print(' '.join(sorted(CHECKS)))")
-cd /verif
+cd "$(dirname "$(readlink -f "$0")")/.."
 for i in $IDS; do
   t0=$(date +%s); out=$(bin/check $i --tier $T 2>&1); rc=$?; t1=$(date +%s)
   echo "rc=$rc $((t1-t0))s $(echo "$out" | grep -m1 "^$i $T:")"
